@@ -16,7 +16,29 @@ ENGINES = {
 }
 
 # id: (engine, technique, level text, level note, design ref)
+COSCHED_NOTE = (
+    "Trusted: the seams of DESIGN.md 2.1 (scheduler-aware Lock/Event/Thread/SimpleQueue, "
+    "selector-less event loop, trio clock/epoll/batch order) behave like the originals; "
+    "scheduling points at synchronisation operations only (sub-operation interleavings of "
+    "plain attribute accesses are covered by the line-level mode where a check says so); "
+    "values and scenario shapes outside the stated product are not covered."
+)
+
 CHECKS = {
+    "C01": (
+        "cosched",
+        "stateless exhaustive schedule exploration of the real runtime with iterative "
+        "deviation bounding",
+        "Each of ~680 scenarios (flavour x failure kind incl. falsy returns and BaseExceptions "
+        "x registration path x failure instant x bystanders x double failures) is run on the "
+        "unmodified ServiceRunner/MetaRunner/runners under every schedule with at most 1 "
+        "(quick) / 2 (thorough) deviations from the default schedule (preemptions at "
+        "synchronisation operations, wake-up order, trio batch order), in virtual time; the "
+        "oracle checks how accept() ended (raised RuntimeError whose cause leads to the very "
+        "object that left the payload; never returns; never keeps running).",
+        COSCHED_NOTE,
+        "DESIGN.md section 2.1 and section 4, C01",
+    ),
     "C17": (
         "smallscope",
         "bounded-exhaustive input enumeration against an independent line-protocol parser",
